@@ -243,6 +243,7 @@ struct ReluctantRepeatIterator<'a> {
     max: usize,
     counter: usize,
     position: Option<usize>,
+    started: bool,
 }
 
 impl<'a> ReluctantRepeatIterator<'a> {
@@ -260,6 +261,7 @@ impl<'a> ReluctantRepeatIterator<'a> {
             max,
             counter: 0,
             position: Some(position),
+            started: false,
         }
     }
 }
@@ -268,26 +270,35 @@ impl Iterator for ReluctantRepeatIterator<'_> {
     type Item = usize;
 
     fn next(&mut self) -> Option<Self::Item> {
-        loop {
-            if let Some(position) = self.position {
+        let mut position = self.position?;
+        if !self.started {
+            // the minimum number of iterations comes first (possibly none)
+            self.started = true;
+            while self.counter < self.min {
                 let mut it = self.operation.matches_iter(self.matcher, position);
-                if let Some(position) = it.next() {
+                if let Some(next) = it.next() {
+                    position = next;
                     self.counter += 1;
-                    if self.counter > self.max {
-                        self.position = None;
-                    } else {
-                        self.position = Some(position);
-                    }
+                } else {
+                    self.position = None;
+                    return None;
                 }
-            } else if self.min == 0 && self.counter == 0 {
+            }
+        } else if self.counter < self.max {
+            // then one more iteration per call, for as long as the body matches
+            let mut it = self.operation.matches_iter(self.matcher, position);
+            if let Some(next) = it.next() {
+                position = next;
                 self.counter += 1;
             } else {
                 self.position = None;
+                return None;
             }
-            if self.counter >= self.min || self.position.is_none() {
-                break;
-            }
+        } else {
+            self.position = None;
+            return None;
         }
+        self.position = Some(position);
         self.position
     }
 }
